@@ -9,7 +9,7 @@ WHAT=${1:-all}; J=${3:-6}
 export GOFLAGS=-mod=mod GOPROXY=off GOSUMDB=off GOTOOLCHAIN=local
 cd /verif
 [ bin/gocv -nt engine/main.go ] || ./check C05 --no-evidence >/dev/null 2>&1
-ROOT=/root/scratch/selftest; mkdir -p $ROOT; RES=$ROOT/results; rm -rf $RES; mkdir -p $RES
+ROOT=/root/scratch/selftest; mkdir -p $ROOT; RES=$ROOT/results; rm -rf $RES $ROOT/logs; mkdir -p $RES $ROOT/logs
 HEAD=$(git -C /repo rev-parse HEAD)
 one() { # kind name patch props...
   kind=$1; name=$2; patch=$3; shift 3
@@ -22,6 +22,7 @@ one() { # kind name patch props...
   for p in "$@"; do
     out=$(/verif/check $p --repo $W/src --no-evidence --workdir $ROOT/work-$name 2>&1); rc=$?
     v=$(echo "$out" | grep -c '^VIOLATION')
+    echo "$out" | tail -40 > $ROOT/logs/$name.$p.log
     line="$line $p:exit=$rc:violations=$v"
   done
   echo "$line" > $RES/$name
@@ -57,11 +58,12 @@ for f in sorted(os.listdir(sys.argv[1])):
         ok=all(':exit=0:' in r and r.endswith('violations=0') for r in rest) and len(rest)>0
     if not ok: bad+=1
     res.append({"kind":kind,"name":name,"result":rest,"as_expected":ok})
-    print(("ok   " if ok else "BAD  ")+kind,name,' '.join(r for r in rest if not ok or kind!='neutral'))
+    print(("ok   " if ok else "BAD  ")+kind,name,' '.join(r for r in rest if kind!='neutral' or ':exit=0:violations=0' not in r))
 json.dump({"results":res,"unexpected":bad},open('/verif/selftest/last_run.json','w'),indent=1)
 print("selftest: %d entries, %d not as expected"%(len(res),bad))
 sys.exit(1 if bad else 0)
 PY
 rc=$?
+rm -rf /verif/selftest/last_bad_logs; [ $rc -ne 0 ] && { mkdir -p /verif/selftest/last_bad_logs; cp $ROOT/logs/* /verif/selftest/last_bad_logs/ 2>/dev/null; }
 git -C /repo worktree prune; rm -rf $ROOT
 exit $rc
